@@ -250,6 +250,11 @@ CHECKS["C19"]["text"] += (" Scenario arenas keeps several arena blocks of every 
 CHECKS["C01"]["text"] += (" The stylesheet-text family places the element in the main, an included or an imported document and varies xml:space on it and on both xsl:stylesheet elements "
     "(StylesheetTree!Preserved: the chain of the element's own document decides).")
 
+CHECKS["C11"]["text"] += (" ObjectFactoryImpl.tla transcribes the object factory's recycling caches and the conversions the recycled classes cache; MC_ObjectFactory "
+    "checks it against ValueObjects.tla (an object answers every conversion from the value it was created with) for every history of create / ask / return / reset "
+    "within the bounds - with either of two seeded switches on the counterexample must appear - and one history per model state is replayed on the real XObjectFactoryDefault "
+    "(harness/xobj.cpp, Trace_C11obj).")
+
 def main():
     props = [json.loads(l) for l in open(os.path.join(ROOT, "properties.jsonl"))]
     checks, na = [], []
